@@ -54,7 +54,7 @@ func (cc *CertChain) GetCommittee(ctx context.Context, instance uint64) (*gpbft.
 	if instance < cc.m.InitialInstance+cc.m.CommitteeLookback {
 		committeeEpoch = cc.m.BootstrapEpoch - cc.m.EC.Finality
 	} else {
-		lookbackIndex := instance - cc.m.CommitteeLookback - cc.m.InitialInstance + 1
+		lookbackIndex := instance - cc.m.CommitteeLookback - cc.m.InitialInstance
 		if lookbackIndex >= uint64(len(cc.certificates)) {
 			return nil, fmt.Errorf("no prior finality certificate to get committee at instance %d", instance)
 		}
